@@ -1,4 +1,71 @@
 (** C07 — HTTP/1 requests are parsed exactly, independent of TCP segmentation.
-    Only statements here; proofs are in Proofs/Http1ReadProofs.v. *)
+    Only statements here; proofs are in Proofs/Http1ReadProofs.v.
+
+    [serve grow mode https dh max_len limit stream sched] is the model of
+    [kvarn_async::read::request] followed by [Http1Body::read_to_bytes(limit)] on a connection that
+    carries [stream] and hands it out in the bursts of the read schedule [sched] (each read gets
+    [min burst window] bytes); afterwards the peer closes ([mode] 0), stalls (1) or fails (2).
+    [grow] is the reallocation policy of [BytesMut::reserve], only assumed to keep its promise
+    ([grow_ok]: the new capacity is at least [len + additional]). *)
 From KV Require Import Bytes RustInt Http1Read Http1ReadProofs.
 Open Scope N_scope.
+
+(** No blank line within the first [max_len] bytes (16 384 in kvarn): an error — for every read
+    schedule (zero-length reads included), every growth function, every end mode. *)
+Theorem head_limit : forall grow mode https dh (max_len : nat) limit stream (sched : list nat),
+  contains_two_newlines (firstn max_len stream) = false ->
+  exists e, serve grow mode https dh max_len limit stream sched = Err e /\
+            (e = E_TOO_LONG \/ e = E_UNEXPECTED_END \/ e = E_SYNTAX).
+Proof. exact head_limit_lemma. Qed.
+
+(** The peer stops (closes, stalls until the timeout, fails) before the blank line has been
+    delivered: an error, never a partial request. *)
+Theorem stalled_head : forall grow mode https dh (max_len : nat) limit stream (sched : list nat),
+  contains_two_newlines (firstn (sum_sched sched) stream) = false ->
+  exists e, serve grow mode https dh max_len limit stream sched = Err e /\
+            (e = E_TOO_LONG \/ e = E_UNEXPECTED_END \/ e = E_SYNTAX).
+Proof. exact stalled_lemma. Qed.
+
+(** [Http1Body::read_to_bytes]: when the [min content_length limit] bytes are delivered, exactly
+    they are returned, for every schedule, and the connection keeps everything behind them
+    (the next request). *)
+Theorem body_exact : forall grow mode early (cl limit : N) stream (sched : list nat),
+  grow_ok grow -> sched_pos sched ->
+  (N.to_nat (N.min cl limit) <= length early + Nat.min (sum_sched sched) (length stream))%nat ->
+  exists r', read_to_bytes grow mode early cl limit (mk_reader stream sched) =
+               Ok (firstn (N.to_nat (N.min cl limit)) (early ++ stream), r') /\
+             rd_data r' = skipn (N.to_nat (N.min cl limit) - length early) stream.
+Proof. exact body_exact_lemma. Qed.
+
+(** ... and in every case (short bodies: EOF gives what there is, a stall TimedOut, a failure the
+    I/O error) the result is [body_spec], a function of the delivered bytes, not of the schedule. *)
+Theorem body_any_schedule : forall grow mode early (cl limit : N) stream (sched : list nat),
+  grow_ok grow -> sched_pos sched ->
+  match body_spec mode early cl limit (firstn (sum_sched sched) stream) with
+  | Ok b => exists r', read_to_bytes grow mode early cl limit (mk_reader stream sched) = Ok (b, r')
+  | Err e => read_to_bytes grow mode early cl limit (mk_reader stream sched) = Err e
+  | Panic => False
+  end.
+Proof. exact body_any_schedule. Qed.
+
+(** Non-vacuity *)
+Example grow_meets_hypothesis : grow_ok vec_grow.
+Proof. exact vec_grow_ok. Qed.
+
+Example head_limit_ex :
+  contains_two_newlines (firstn 20%nat (B "GET /a-long-target-that-never-ends HTTP/1.1")) = false /\
+  serve vec_grow 0 false None 20%nat 100 (B "GET /a-long-target-that-never-ends HTTP/1.1") [7; 100]%nat = Err E_TOO_LONG.
+Proof. vm_compute. split; reflexivity. Qed.
+
+Example stalled_ex :
+  contains_two_newlines (firstn (sum_sched [5; 12]%nat) (B "GET / HTTP/1.1" ++ [13; 10; 13; 10])) = false /\
+  serve vec_grow 1 false None 64%nat 100 (B "GET / HTTP/1.1" ++ [13; 10; 13; 10]) [5; 12]%nat = Err E_UNEXPECTED_END.
+Proof. vm_compute. split; reflexivity. Qed.
+
+Example body_exact_ex :
+  sched_pos [3; 2; 50]%nat /\
+  match read_to_bytes vec_grow 0 (B "he") 5 1000 (mk_reader (B "lloGET /next") [3; 2; 50]%nat) with
+  | Ok (b, r') => b = B "hello" /\ rd_data r' = B "GET /next"
+  | _ => False
+  end.
+Proof. split; [repeat constructor|vm_compute; split; reflexivity]. Qed.
